@@ -125,7 +125,7 @@ func (f *decompressor) step() (err error) {
 		_, err = f.rBuf.Peek(int(state.bitsLen/8) + 1)
 		state.input, _ = f.rBuf.Peek(f.rBuf.Buffered())
 		f.peekSize = len(state.input)
-		if err != nil && err != bufio.ErrBufferFull && err != io.EOF {
+		if err != nil && err != io.EOF {
 			return err
 		}
 		f.eof = err == io.EOF
